@@ -192,18 +192,27 @@ Definition loop_model_bad (c : loop_case) : bool :=
       4 a refusal nobody asked for (bound not reached, not told to stop)
       5 a call that must return at once did not return
       6 NextCh returned the wrong kind of channel
-      7 malformed case *)
+      7 malformed case
+      8 more than [race_allowance] attempts handed out by Next after the loop had
+        been told to stop (completely, before each of those calls; the first
+        call after a Reset is the known shape and not counted).  A single such
+        attempt is what the select race of the partial theorem looks like when
+        the back-off is tiny, zero or negative (the runtime fired the due timer
+        between time.After and the select: measured 3 in 10^4 calls with 1 ns
+        timers on 16 Ps, never with one P); several in one loop are not. *)
+Definition race_allowance : Z := 2.
 Record ospec := {
   o_fresh : bool;       (* the next attempt is the first one after Start / Reset *)
   o_k : Z;              (* waits completed since then = index of the next back-off *)
   o_att : Z;            (* attempts yielded since then *)
   o_stopped : bool;     (* closer closed or context cancelled, completely, before now *)
   o_known : bool;       (* saw: Reset/Start while open, then stop, then an immediate attempt *)
+  o_late : Z;           (* attempts handed out by Next (not the first after Reset) although told to stop before the call *)
   o_code : N;
 }.
 
 Definition o_init (c0 x0 : bool) : ospec :=
-  {| o_fresh := negb (c0 || x0); o_k := 0; o_att := 0; o_stopped := c0 || x0; o_known := false; o_code := 0%N |}.
+  {| o_fresh := negb (c0 || x0); o_k := 0; o_att := 0; o_stopped := c0 || x0; o_known := false; o_late := 0; o_code := 0%N |}.
 
 Definition exhausted (o : opts) (a : ospec) : bool := (0 <? max_retries o) && (max_retries o + 1 <=? o_att a).
 
@@ -215,7 +224,7 @@ Definition flag (old : N) (checks : list (bool * N)) : N :=
 
 Definition ostep (o : opts) (a : ospec) (op : hop) (ob : hobs) : ospec :=
   let fail a c := {| o_fresh := o_fresh a; o_k := o_k a; o_att := o_att a; o_stopped := o_stopped a;
-                     o_known := o_known a; o_code := flag (o_code a) [(true, c)] |} in
+                     o_known := o_known a; o_late := o_late a; o_code := flag (o_code a) [(true, c)] |} in
   match op, ob with
   | HNext _ async, BNext res el _ _ =>
       let stop_now := match async with Some _ => true | None => false end in
@@ -225,38 +234,40 @@ Definition ostep (o : opts) (a : ospec) (op : hop) (ob : hobs) : ospec :=
            an attempt although it was told to stop is the known shape *)
         {| o_fresh := negb res; o_k := 0; o_att := if res then 1 else 0;
            o_stopped := o_stopped a || stop_now;
-           o_known := o_known a || (res && o_stopped a);
+           o_known := o_known a || (res && o_stopped a); o_late := o_late a;
            o_code := flag (o_code a) [(negb res && negb may_stop, 1%N)] |}
       else if res then
         {| o_fresh := false; o_k := o_k a + 1; o_att := o_att a + 1; o_stopped := o_stopped a || stop_now;
            o_known := o_known a;
-           o_code := flag (o_code a) [(exhausted o a, 2%N); (negb (spec_ge_lower o (o_k a) el), 3%N)] |}
+           o_late := if o_stopped a then o_late a + 1 else o_late a;
+           o_code := flag (o_code a) [(exhausted o a, 2%N); (negb (spec_ge_lower o (o_k a) el), 3%N);
+                                      (o_stopped a && (race_allowance <? o_late a + 1), 8%N)] |}
       else
         {| o_fresh := false; o_k := o_k a; o_att := o_att a; o_stopped := o_stopped a || stop_now;
-           o_known := o_known a;
+           o_known := o_known a; o_late := o_late a;
            o_code := flag (o_code a) [(negb (exhausted o a || may_stop), 4%N)] |}
   | HNext _ _, BHang => fail a 5%N
   | HNextCh _, BHang => fail a 5%N
   | HNextCh _, BChan kind el _ _ =>
       if o_fresh a then
-        {| o_fresh := false; o_k := 0; o_att := 1; o_stopped := o_stopped a; o_known := o_known a;
+        {| o_fresh := false; o_k := 0; o_att := 1; o_stopped := o_stopped a; o_known := o_known a; o_late := o_late a;
            o_code := flag (o_code a) [(negb (kind =? 0), 6%N)] |}
       else if kind =? 1 then
         (* nil: no further attempt; justified by the bound, or by the loop having been told to stop *)
-        {| o_fresh := false; o_k := o_k a; o_att := o_att a; o_stopped := o_stopped a; o_known := o_known a;
+        {| o_fresh := false; o_k := o_k a; o_att := o_att a; o_stopped := o_stopped a; o_known := o_known a; o_late := o_late a;
            o_code := flag (o_code a) [(negb (exhausted o a || o_stopped a), 4%N)] |}
       else
         (* NextCh computes its back-off one position ahead of Next; either position is
            accepted.  kind 3: the harness did not wait for an hour-long timer *)
-        {| o_fresh := false; o_k := o_k a + 1; o_att := o_att a + 1; o_stopped := o_stopped a; o_known := o_known a;
+        {| o_fresh := false; o_k := o_k a + 1; o_att := o_att a + 1; o_stopped := o_stopped a; o_known := o_known a; o_late := o_late a;
            o_code := flag (o_code a)
                        [(exhausted o a, 2%N); (negb ((kind =? 2) || (kind =? 3)), 6%N);
                         ((kind =? 2) && negb (spec_ge_lower o (o_k a) el || spec_ge_lower o (o_k a + 1) el), 3%N)] |}
   | HReset, BState _ _ =>
       if o_stopped a then a
-      else {| o_fresh := true; o_k := 0; o_att := 0; o_stopped := false; o_known := o_known a; o_code := o_code a |}
+      else {| o_fresh := true; o_k := 0; o_att := 0; o_stopped := false; o_known := o_known a; o_late := o_late a; o_code := o_code a |}
   | HStop _, BState _ _ =>
-      {| o_fresh := o_fresh a; o_k := o_k a; o_att := o_att a; o_stopped := true; o_known := o_known a; o_code := o_code a |}
+      {| o_fresh := o_fresh a; o_k := o_k a; o_att := o_att a; o_stopped := true; o_known := o_known a; o_late := o_late a; o_code := o_code a |}
   | _, _ => fail a 7%N
   end.
 
